@@ -328,6 +328,52 @@ func main() {
 		}
 	}
 
+	// ---------------------------------------------------------------- latch discipline: every handler
+	// takes its latches before its first read of the lock / write column (that is what makes a
+	// handler one atomic step of the model).  Fact = the handlers that read first ("none" expected).
+	{
+		reads := map[string]bool{"reader.GetLock": true, "reader.GetWriteByStartTs": true, "reader.MostRecentWrite": true,
+			"reader.GetValue": true, "prewriteMutation": true, "commitKey": true, "rollbackKey": true,
+			"db.SetVersionedEntry": true, "db.DeleteVersionedEntry": true, "db.GetVersionedEntry": true, "isLockExpired": true}
+		var early []string
+		shapeOK := true
+		for _, name := range []string{"Prewrite", "Commit", "BatchRollback", "ResolveLock", "CheckTxnStatus"} {
+			fd := tx.Func(name)
+			if fd == nil {
+				shapeOK = false
+				continue
+			}
+			calls := tx.Calls(fd.Body)
+			acq, first := -1, -1
+			for i, c := range calls {
+				if c == "latches.Acquire" && acq < 0 {
+					acq = i
+				}
+				if reads[c] && first < 0 {
+					first = i
+				}
+			}
+			// the lock value must not be captured by a closure or helper either: any other use of
+			// `reader.` before the Acquire call is not understood
+			for i, c := range calls {
+				if acq >= 0 && i < acq && strings.HasPrefix(c, "reader.") && !reads[c] {
+					shapeOK = false
+				}
+			}
+			switch {
+			case acq < 0 || first < 0:
+				shapeOK = false
+			case first < acq:
+				early = append(early, name)
+			}
+		}
+		val := "none"
+		if len(early) > 0 {
+			val = strings.Join(early, ",")
+		}
+		o.Set("latch.readsBeforeAcquire", "percolator/txn.go:Prewrite/Commit/BatchRollback/ResolveLock/CheckTxnStatus", val, shapeOK, "none")
+	}
+
 	// ---------------------------------------------------------------- LSM decisions (C19: the lock
 	// column rewrites one internal key per user key; same rules and names as extract/cmd/lsm)
 	lsmfacts.Extract(o)
